@@ -88,7 +88,7 @@ func (r *Run) RunCold(w *W, scenario string, race bool) {
 	}
 	if err != nil && !reported {
 		text := strings.Join(tail, "\n")
-		if strings.Contains(text, "panic:") || strings.Contains(text, "fatal error:") || strings.Contains(text, "DATA RACE") {
+		if strings.Contains(text, "panic:") || strings.Contains(text, "fatal error:") || strings.Contains(text, "DATA RACE") || strings.Contains(text, "race detected") {
 			w.Fail(ColdCase{Cold: scenario}, "cold-start-crash", "fresh process with first calls "+scenario+" died: "+truncate(text, 1500))
 		} else {
 			r.Inconclusive("cold start scenario " + scenario + ": child failed without a report: " + truncate(text, 300))
